@@ -5,7 +5,9 @@ carry: memory safety / termination of the compiled artefact incl. Eigen, lemon, 
 points and the internal classes are run under AddressSanitizer + UndefinedBehaviorSanitizer
 (-fno-sanitize-recover=all) with assertions ENABLED (the README's default configuration) and, in the
 thorough tier, with assertions disabled and in the plain build, on three streams of the property's domain:
-general small circuits, magnitude (|v| <= 2^22, cell area < 2^31), degenerate shapes.  A case whose
+general small circuits, magnitude (|v| <= 2^22, cell area < 2^31), degenerate shapes, unit cells + callbacks; in every stream
+~60% of the cases run a parameter set VARIED from the effort's defaults (every integer / enum knob and the moderate float knobs of
+all parameter structures, kept only when ColoquinteParameters::check accepts the set).  A case whose
 process dies (sanitizer report, abort, signal) or does not finish is a violation with that case as replay."""
 import json
 import re
@@ -26,12 +28,39 @@ def flow(ctx, variant, count, seed):
         out["lines"] += lines[:2]
         for l, i in zip(lines, impl):
             if not i.startswith("G:"):
-                out["bad"].append((l, i[:400], "[%s build, stream %d] a placement entry point did not return or throw: %s" % (variant, stream, i[:200])))
+                why = "[%s build, stream %d] a placement entry point did not return or throw: %s" % (variant, stream, i[:200])
+                ps = param_set(h, l)
+                if ps:
+                    why += " (ACCEPTED non-default parameter set of the case: " + ps[:330] + " ...)"
+                out["bad"].append((l, i[:400], why, ps))
                 continue
             for part in i.split():
                 k = part[:2] + ("THROW" if "THROW" in part else part[2:])
                 out["outcomes"][k] = out["outcomes"].get(k, 0) + 1
     return out
+
+
+def param_set(h, line):
+    """the varied parameter set of an FL case (trailing pseed != 0), as printed by `flow show`"""
+    import subprocess
+    try:
+        v = [int(x) for x in line.split()[1:]]
+        k = 1 + 5 * v[0]                    # rows
+        k += 1 + 8 * v[k]                   # cells
+        nn = v[k]; k += 1
+        for _ in range(nn):                 # nets: degree, 3 ints per pin, weight
+            k += 1 + 3 * v[k] + 1
+        tail = v[k:] + [0] * 9              # stages effort seed netmodel cbmode cbk cbcell cbw pseed
+        effort, pseed = tail[1], tail[8]
+    except Exception:
+        return ""
+    if pseed == 0:
+        return ""
+    try:
+        r = subprocess.run([h, "show", str(effort), str(pseed)], capture_output=True, text=True, timeout=60)
+        return " ".join(r.stdout.split())
+    except Exception:
+        return ""
 
 
 def internal(ctx, variant, name, gen_args, chunk):
@@ -52,7 +81,7 @@ def run(ctx):
     proof_ok, proof = common.proof_status(ctx, "C07")
     s = ctx.seed
     variants = ["asan"] if ctx.quick else ["asan", "asan-ndebug", "plain"]
-    nflow = 1500 if ctx.quick else 30000
+    nflow = 2000 if ctx.quick else 30000
     total, bad, samples, per = 0, [], [], {}
     for v in variants:
         f = flow(ctx, v, nflow, s + 70)
@@ -74,8 +103,10 @@ def run(ctx):
             total += n; bad += b; per[v][name + "_cases"] = n
             if v == variants[0]:
                 samples += [x[:300] for x in smp]
-    for l, i, why in bad[:3]:
+    for b in bad[:3]:
+        l, i, why = b[:3]
         ctx.violation("/repo violates C07: " + why, {"case": l, "implementation_output": i, "why": why,
+                                                     "parameters": (b[3] if len(b) > 3 and b[3] else "library defaults of the effort (capped maxNbSteps 12, nbPasses 2)"),
                                                      "format": "FL: harness/flow.cpp; LG: legal.cpp; DP: detailed.cpp; DO: dopt.cpp; DM: dplace.cpp; RL: rowleg.cpp; M1/M2/M3: c07mag.cpp"})
     if not bad and not proof_ok:
         ctx.violation("proof obligations of Properties_C07.v do not check", {"broken": "Properties_C07.v", "detail": proof}, found_input=False)
@@ -83,8 +114,19 @@ def run(ctx):
     cov.update({"trusted_base": common.TRUSTED_BASE + ["g++ 12 sanitizer runtimes (ASan, UBSan); the C++ type annotations of the machine model are hand-transcribed",
                                                         "memory safety and termination of Eigen / lemon / boost / libstdc++ use are OBSERVED on the generated cases, not proved"],
                 "evaluations": total, "distinct_nontrivial": total - len(bad),
-                "rule": "three streams of harness/flow.cpp (general; magnitude: site/row sizes up to 2^18, coordinates to +-2^22, cell area < 2^31; degenerate: single row, single "
-                        "cell, no nets, degree-1 nets, all pins on one cell, zero-size fixed terminals, all fixed but one, infeasible density), every circuit has a movable cell of "
+                "rule": "PARAMETERS of the flow streams: ~60% of the FL cases carry a variation seed: starting from the effort's defaults each knob is redrawn with "
+                        "probability 1/2: roughLegalization costModel (all 6), nbSteps 0-3, binSize 1..25 (integer or tenths), line/diag window sizes 1-8 and square 1-4 with "
+                        "overlaps 1..size-1 (1-4 when the size is 1) drawn per window, so an overlap may be >= ANOTHER window's size, unidimensionalTransport, quadraticPenalty 0..1, "
+                        "sideMargin 0..3, coarseningLimit 0.5..500, targetBlending -0.1..0.89; continuousModel approximationDistance 0.1..10, its update factor 0.8..1.2, "
+                        "maxNbConjugateGradientSteps 1..1000 (often 1-3), CG tolerance 1e-1..1e-6; penalty cutoffDistance 0.1..100, its update factor, areaExponent 0.5..1, "
+                        "initialValue, updateFactor 1.01..1.99 (penalty.targetBlending untouched); global maxNbSteps 1-12, nbInitialSteps < maxNbSteps, "
+                        "nbStepsBeforeRoughLegalization 1-3, gapTolerance 0..1, distanceTolerance 0..5, penaltyUpdateDistance, penaltyUpdateBackoff 1..3, exportBlending -0.5..1.5, "
+                        "noise 0..2; legalization orderingWidth/Height -1..2, orderingY -0.2..0.2; detailed nbPasses 0-2, localSearchNbNeighbours 0-8, localSearchNbRows 0-4, "
+                        "shiftNbRows 1-6 (40% exactly 1), shiftMaxNbCells 0-200 (30% 0-3), reorderingNbRows 1-3, reorderingMaxNbCells 0-6; the set is used only when "
+                        "ColoquinteParameters::check() accepts it (flow_outcomes P:var = varied and accepted, P:rej = rejected -> defaults, P:def = defaults); "
+                        "`flow show EFFORT PSEED` prints the set.  CIRCUITS: three streams of harness/flow.cpp (general; magnitude: site/row sizes up to 2^18, coordinates to +-2^22, cell area < 2^31; degenerate: single row, single "
+                        "cell, no nets, degree-1 nets, all pins on one cell, zero-size fixed terminals, all fixed but one, infeasible density; plus the unit-cell stream with callbacks that observe / resize a cell / "
+                        "rescale the net weights), every circuit has a movable cell of "
                         "positive area; stages global/legalize/detailed/full flow, efforts 1-4, 4 net models, seeds; plus the legal/detailed/dopt/dplace/rowleg harness streams "
                         "in the same sanitizer build, and harness/c07mag.cpp (1-D transportation balanceDemand+assign with positions to +-2^59 and totals to 2^61 / at the "
                         "rough legalizer's scale, TransportationProblem with integer costs at INT_MAX/(4 sinks), DensityGrid on regions inside +-2^22). non-trivial = the process survived the case (every case exercises an entry point); distinct = generated case lines",
